@@ -78,6 +78,9 @@ def run_case(args):
         explore.EXP.tot = explore.EXP._zero_tot()
         explore.EXP.timeout_ms = opts.get("timeout_ms", 10000)
         explore.EXP.seed = opts.get("seed", 0)
+        explore.EXP.exact_close = bool(opts.get("exact_close", False))
+        if "feas_timeout_ms" in opts:
+            explore.EXP.feas_timeout_ms = opts["feas_timeout_ms"]
         explore.EXP.rng.seed(opts.get("seed", 0))
         first = {"done": False}
         witness_box = {}
